@@ -5,11 +5,13 @@
    Skipped (filtered-out) tests carry a name starting with byte 122 'z': the harness installs the
    name filter that rejects exactly those. *)
 EXTENDS TeamCity, Json
-CONSTANTS D, NameAlpha, NameLen, FileAlpha, FileLen, MsgAlpha, MsgLen
-GNames == StrUpTo(NameAlpha, NameLen) \ {<<>>}
-GFiles == StrUpTo(FileAlpha, FileLen) \ {<<>>}
+CONSTANTS D, NameAlpha, NameLen, FileAlpha, FileLen, FileMin, MsgAlpha, MsgLen
+\* every kind of value ranges over ALL strings up to a length, the empty string and the one-byte strings included
+\* (FileMin = 1 drops the empty path in the configurations whose size is spent on the run structure; names always include "")
+GNames == StrUpTo(NameAlpha, NameLen)
+GFiles == {f \in StrUpTo(FileAlpha, FileLen) : Len(f) >= FileMin}
 GMsgs  == StrUpTo(MsgAlpha, MsgLen)
-GTexts == {<<116>>, <<91, 120, 39, 93, 10>>}
+GTexts == {<<>>, <<116>>, <<91, 120, 39, 93, 10>>}
 VARIABLES h, done
 gvars == <<vars, h, done>>
 
